@@ -499,3 +499,34 @@ pub fn from_utf8_model(v: &[u8]) -> Result<&str, core::str::Utf8Error> {
 pub fn str_unchecked(v: &[u8]) -> &str {
     unsafe { core::str::from_utf8_unchecked(v) }
 }
+
+// ------------------------------------------------------------------------------------------------
+// explicit collision-resistance assumption (only where a harness says so)
+// ------------------------------------------------------------------------------------------------
+#[cfg(kani)]
+pub fn assume_collision_free() {
+    unsafe {
+        let t = &HASHES;
+        let mut i = 0;
+        while i < t.n {
+            let mut j = i + 1;
+            while j < t.n {
+                if !t.q[i].same_message(&t.q[j]) {
+                    let mut same = true;
+                    let mut k = 0;
+                    while k < 20 {
+                        if t.out[i][k] != t.out[j][k] {
+                            same = false;
+                        }
+                        k += 1;
+                    }
+                    kani::assume(!same);
+                }
+                j += 1;
+            }
+            i += 1;
+        }
+    }
+}
+#[cfg(not(kani))]
+pub fn assume_collision_free() {}
